@@ -9,6 +9,7 @@ pub mod c11;
 pub mod c12;
 pub mod c13;
 pub mod c13_e2e;
+pub mod c19;
 pub mod dump;
 
 use crate::engine::report::Report;
@@ -24,6 +25,7 @@ pub fn run(id: &str, tier: &str) -> Option<i32> {
         "C11" => { let r = Report::new(id, tier, "model_checking"); c11::check(&r); r }
         "C12" => { let r = Report::new(id, tier, "model_checking"); c12::check(&r); r }
         "C13" => { let r = Report::new(id, tier, "model_checking"); c13::check(&r); r }
+        "C19" => { let r = Report::new(id, tier, "model_checking"); c19::check(&r); r }
         _ => return None,
     };
     Some(r.finish())
@@ -40,6 +42,7 @@ pub fn replay(id: &str, path: &str) -> Option<i32> {
         "C11" => Some(c11::replay(path)),
         "C12" => Some(c12::replay(path)),
         "C13" => Some(c13::replay(path)),
+        "C19" => Some(c19::replay(path)),
         _ => None,
     }
 }
